@@ -1071,8 +1071,8 @@ fn c06_ip_variants_v4_short() {
     // strict pair only; the lax pair is checked by `c06_ip_variants_v4_short_lax` so that the recorded finding D6-lax
     // (pinned by the crate's own tests) cannot mask a regression of the repaired strict decoder
     let st = c06_strict_results_v4(&b[..l], false);
-    all_equal(&st, false);
-    kani::cover!(matches!(st[0], Err(_)));
+    assert!(st[0] == st[1], "IpSlice and Ipv4Slice differ on an input shorter than 20 bytes");
+    kani::cover!(matches!(st[0], Err(NErr::Len { .. })));
 }
 
 /// C06 IP boundary, lax pair (`LaxIpSlice` vs `LaxIpv4Slice`) on inputs shorter than the minimal IPv4 header.
@@ -1084,7 +1084,8 @@ fn c06_ip_variants_v4_short_lax() {
     kani::assume(l >= 1);
     b[0] = 0x40 | (b[0] & 0xf);
     let lx = c06_lax_results_v4(&b[..l], false);
-    all_equal(&lx, false);
+    assert!(lx[0] == lx[1], "LaxIpSlice and LaxIpv4Slice differ on an input shorter than 20 bytes");
+    kani::cover!(matches!(lx[1], Err(NErr::Len { .. })));
 }
 
 /// C06 IP boundary, slice family, IPv4. Bounded: all inputs of 20..=44 B with version nibble 4 (symbolic IHL, any
